@@ -19,6 +19,9 @@ Decided clauses:
         or previously stored into, a parameter- or global-rooted cell - is released, that cell is
         overwritten, re-initialised by a callee, or released together with its object before the
         function returns (the clean-up code of the owners releases whatever the cell still holds).
+  R20.6 destructors are total: every release that argon2_free_instance / free_memory / escrypt_free_region perform
+        on some path is performed on every returning path unless the released pointer is NULL there (or an
+        earlier release reported failure).
 NOT decided: that malloc/mmap themselves behave per POSIX; arithmetic of the requested sizes.
 """
 from .. import terms as T
@@ -366,6 +369,55 @@ def analyse(prog, chk, cname):
     chk.floor("R20.2", "fallible steps on success exits" + tag, nsucc, 60)
     chk.floor("R20.4", "allocation / owner obligations" + tag, nown, 30)
     chk.floor("R20.5", "released pointers that were held in caller-visible memory" + tag, ndangle[0], 3)
+
+    # ---- R20.6: destructors are total ---------------------------------------------------------------------------------------
+    # The error paths rely on the owner's destructor (argon2_free_instance, free_memory, escrypt_free_region) to release
+    # whatever the owner holds. Every release such a function performs on some path must be performed on every returning path,
+    # unless that path holds the fact that the released pointer itself is NULL (or the release call itself reported failure).
+    # An early return on another field's NULL-ness skips the rest and leaks it.
+    ndest = 0
+    for dname in ("argon2_free_instance", "free_memory", "escrypt_free_region"):
+        d = prog.fn(dname)
+        if d is None:
+            d = next((f for f in prog.functions() if f.sname == dname and not f.decl), None)
+        if d is None:
+            continue
+        ps = [p for p in cm.paths(prog, d) if p.kind == "ret"]
+        universe = {}
+        per_path = []
+        for p in ps:
+            load_addr = {e.res: e.addr for e in p.events if e.kind == "load" and e.res is not None}
+            mine = {}
+            for u in p.calls():
+                un = u.callee_name()
+                if un not in RELEASE or un == "argon2_finalize" or RELEASE[un] >= len(u.args):
+                    continue
+                a = u.args[RELEASE[un]]
+                shape = (un, load_addr.get(a, a))
+                mine[shape] = u
+                universe.setdefault(shape, (u, p))
+            per_path.append((p, mine, load_addr))
+        for p, mine, load_addr in per_path:
+            for shape, (u0, _p0) in universe.items():
+                if shape in mine:
+                    continue
+                ndest += 1
+                un, addr = shape
+                # is the pointer that would be released known to be NULL on this path?
+                null_here = False
+                for e in p.events:
+                    if e.kind == "load" and e.addr == addr and e.res is not None and p.facts.zeroness(e.res) == "Z":
+                        null_here = True
+                if addr[0] == "arg" and p.facts.zeroness(addr) == "Z":
+                    null_here = True
+                # or did an earlier release on this path report failure (munmap != 0)?
+                failed = any(x.callee_name() == "munmap" and x.res is not None and p.facts.zeroness(x.res) == "NZ" for x in p.calls("munmap"))
+                ok = null_here or failed
+                chk.ob("R20.6", d, "every returning path performs %s(%s) unless that pointer is NULL there" % (un, T.show(addr, d)) + tag, ok,
+                       loc=d.loc(p.end_iid), detail="" if ok else "this path returns without it (it is performed at %s on other paths): "
+                       "what the owner still holds is leaked" % d.loc(u0.iid), path=None if ok else p, key="R20.6 %s %s" % (dname, un))
+        chk.ob("R20.6", d, "%d returning path(s), %d distinct release(s)" % (len(ps), len(universe)), True, key="R20.6 %s scan" % dname)
+    chk.floor("R20.6", "destructors examined" + tag, 1 if ndest >= 0 else 0, 1)
 
     # ---- R20.2b: results of fallible calls reach a branch or a return (flow-insensitive use-def) -----
     ndrop = 0
